@@ -67,8 +67,17 @@ def main():
             if sy is not None and 0 < r["steps"] <= 3000:
                 seeds += [sy, pegrun.mutate(rnd, sy), pegrun.mutate(rnd, sy)]
     seeds = pegrun.cheap([s for s in seeds if s is not None], 20000 if quick else 3000, wd)
-    world = pegrun.peg_world(toks, 2, 1, seeds, checked=True, later=pegrun.LATER[:16])
+    # the engine invariants (Contract) are asserted on every step of the single tokens and the prefabricated inputs; all 2-token
+    # sequences go through the model without them (with them TLC manages ~40 inputs a second)
+    cworld = pegrun.peg_world(toks, 1, 1, seeds, checked=True, later=pegrun.LATER[:16])
+    cres = pegrun.run_peg(chk, "c10-contracts", cworld, shapes=True)
+    world = pegrun.peg_world(toks, 2, 1, [], later=pegrun.LATER[:16])
     res = pegrun.run_peg(chk, "c10", world, shapes=True)
+    for k in ("shape", "language", "samples"):
+        res[k] = res[k] + cres[k]
+    for k, v in cres["byacc"].items():
+        res["byacc"][k] = res["byacc"].get(k, 0) + v
+    res["inputs"] += cres["inputs"]
     chk.cov["evaluations"] = res["inputs"]
     for m in res["shape"]:
         chk.violation({"input": m["input"], "what": m["what"], "impl": m["impl"]})
